@@ -1018,6 +1018,28 @@ Section Follow.
     split; [simpl; apply nlookup_nset_same|].
     match goal with |- (let '(c, r) := ?x in _) = _ => destruct x as [c r] end. reflexivity.
   Qed.
+
+  (* a shallow copy c of the re-keyed Job object follows the change: in the programs it becomes, right after the
+     re-key through j, an object for the new id (harness item "follow" = JOpen c f' prov, no action on the
+     implementation).  Then c and j name the SAME document file f' (each through a collection of its own, created on
+     the next access), nothing else changed: what is written through one is what the other loads *)
+  Lemma follow_copy : forall js j c f f' d prov,
+    c <> j -> prov <> prov_symlink ->
+    nlookup j (jobs js) = Some (f, d) -> f <> f' -> nmem f (dirs js) = true -> nmem f' (dirs js) = false ->
+    let js1 := fst (jstep js (JRekey j f')) in
+    let js2 := fst (jstep js1 (JOpen c f' prov)) in
+    snd (jstep js1 (JOpen c f' prov)) = Ok JNull /\
+    nlookup c (jobs js2) = Some (f', None) /\ nlookup j (jobs js2) = Some (f', None) /\
+    core js2 = core js1 /\ dirs js2 = dirs js1.
+  Proof.
+    intros js j c f f' d prov Hcj Hp Hj Hne Hd Hd'. cbv zeta. unfold Doc.jstep. rewrite Hj. cbv beta zeta.
+    rewrite N.sub_diag, N.add_0_r.
+    assert (E : N.eqb f f' = false) by (apply N.eqb_neq; exact Hne). rewrite E, Hd, Hd'. simpl.
+    unfold key_of. assert (Ep : N.eqb prov prov_symlink = false) by (apply N.eqb_neq; exact Hp). rewrite Ep.
+    split; [reflexivity|]. split; [apply nlookup_nset_same|].
+    split; [rewrite nlookup_nset_other by auto; apply nlookup_nset_same|].
+    split; reflexivity.
+  Qed.
 End Follow.
 
 (* ================= licence for the correspondence ================= *)
